@@ -83,10 +83,37 @@ def C10_limits(maxsize: int, flow: bool) -> bool:
   return low < maxsize <= hard and (flow or hard == maxsize) and hard <= maxsize * 1.05
 
 
+FLOAT_MAX = list(range(1, 65)) + [100, 1000, 4096, 10 ** 6, 10 ** 6 + 1, 12345677, 2 ** 31, 10 ** 12 + 7]
+
+
+def C10_limits_float(mi: int, flow: bool) -> bool:
+  """
+  pre: 0 <= mi < len(FLOAT_MAX)
+  post: __return__
+  """
+  # conf.py's derivation in REAL double arithmetic (the step harness computes it on exact rationals):
+  # without flow control the hard limit is MAX_CACHE_SIZE itself, with it MAX <= hard <= 1.05*MAX; low < MAX
+  from vp_lib.api import pick
+  m = pick(FLOAT_MAX, mi)
+  L.sset('MAX_CACHE_SIZE', m)
+  L.sset('USE_FLOW_CONTROL', flow)
+  exec(L._LIMIT_CODE, {'settings': L.settings})
+  for k in list(L.settings.__dict__):
+    L.settings[k] = L.settings.__dict__.pop(k)
+  hard, low = L.settings['CACHE_SIZE_HARD_MAX'], L.settings['CACHE_SIZE_LOW_WATERMARK']
+  cover('derived')
+  if not flow:
+    return hard == m and low < m
+  return m <= hard <= m * 1.05 and low < m
+
+
 _STRAT_SHARDS = [('s%d_%s_%s' % (i, n or 'none', 'inf' if u else 'bounded'), 'strat == %d and unbounded == %s' % (i, u))
                  for i, n in enumerate(L.STRATEGY_NAMES) for u in (False, True)]
 
 HARNESSES = [
+  H('C10_limits_float', quick=dict(timeout=200), covers=['derived'],
+    encodes=['carbon.conf: CACHE_SIZE_HARD_MAX / CACHE_SIZE_LOW_WATERMARK derivation in real doubles'],
+    assumptions=['%d concrete MAX_CACHE_SIZE values incl. 1..64 (symbolic index): closes the floats-as-reals gap of the step harness for the derivation itself' % len(FLOAT_MAX)]),
   H('C10_store_step', quick=dict(timeout=240, shards=_STRAT_SHARDS), thorough=dict(timeout=900, shards=_STRAT_SHARDS),
     covers=['update', 'refused', 'accepted'], replay='replay_store_step',
     encodes=['carbon.cache:_MetricCache.store', 'carbon.cache:_MetricCache.is_full', 'carbon.cache:_MetricCache.is_nearly_full',
@@ -109,8 +136,10 @@ def _race_setup(b0, b2, mi, ti, v, m2, t2, two, p1, n, p2):
 
 
 def _race_verdict(out, stores):
+  if out.errors and out.cache.size == L.held(out.cache):
+    return None                       # an exception inside store/drain alone is C17's clause; a size left wrong by it is ours
   if out.errors:
-    return None                       # exceptions inside store/drain: C17's clause
+    return 'after %r the reported size is %r but %r datapoints are held' % (out.errors[0][1], out.cache.size, L.held(out.cache))
   if out.size_bad is not None:
     return 'lock free but reported size %r != %r datapoints held' % (out.size_bad[1], out.size_bad[2])
   if out.bound_bad is not None:
@@ -160,7 +189,7 @@ _RQ10 = [('s%d_%s_%s' % (i, L.STRATEGY_NAMES[i] or 'none', 'two' if t else 'one'
 _RS10 = [('s%d_%s_%s_m%d' % (i, n or 'none', 'two' if t else 'one', m), 'strat == %d and two == %s and mi == %d' % (i, bool(t), m))
          for i, n in enumerate(L.STRATEGY_NAMES) for t in (0, 1) for m in range(3)]
 HARNESSES.append(
-  H('C10_race', quick=dict(timeout=280, shards=_RQ10, extra_pre=['p2 == 0', 'maxsize <= 2', 'not flow', 'mi == 0 and ti == 0', 'm2 == 1 and t2 <= 1']),
+  H('C10_race', quick=dict(timeout=280, shards=_RQ10, extra_pre=['p2 == 0', 'maxsize <= 2', 'not flow', 'mi == 0 and ti != 1', 'm2 == 1 and t2 <= 1']),
     thorough=dict(timeout=900, shards=_RS10, extra_pre=['m2 >= 1', 'p2 in (0, 3)', 'maxsize <= 2', 't2 <= 1']),
     covers=['interleaved'], replay='replay_race', twin_pre=['strat == 0 and not two'],
     encodes=['carbon.cache:_MetricCache.store / pop / drain_metric / is_full / is_nearly_full (statement-level coroutines)'],
